@@ -5,4 +5,5 @@ cd "$(dirname "$0")"
 export GOFLAGS=-mod=mod GOPROXY=off GOSUMDB=off GOTOOLCHAIN=local
 mkdir -p engine/bin .cache evidence
 (cd engine/ssaexport && go build -o ../bin/ssaexport .)
+(cd tools/unitables && go run . ../../engine/symgo/unitables.json)
 python3-vt -c "import z3; print('z3', z3.get_version_string())"
